@@ -84,6 +84,10 @@ Slack == 40000       \* ~ one tolerance of barycentric error times an edge lengt
 \* e.out: sequence of output triangles, each a sequence of three recorded vertices
 \* e.same = 1 iff the output is exactly (bit for bit) the single input triangle
 \* e.batch = 1 iff clipping it inside a batch gave bit-identical results
+\* e.sc: the call was made with all homogeneous coordinates multiplied by 2^sc.  The
+\* frustum is a cone (every plane passes through the origin of clip space), so the
+\* inside part of a triangle, in barycentric terms, does not depend on sc: the relation
+\* below deliberately never mentions it.
 Tight(t, td, P, Q) ==
   \* both ends on the same constraint boundary: an input edge or a clip plane
   \/ \E i \in 1..3 : Abs(P[i]) <= 4 * TolB /\ Abs(Q[i]) <= 4 * TolB
